@@ -297,6 +297,21 @@ def handle (st : DState) (line : String) : DState × String :=
     | some s' => ({ st with rw := s' }, showRW s')
     | none => (st, "DISABLED")
   | ["rw", "state"] => (st, showRW st.rw)
+  | ["flock", labels] =>
+    -- replay a recorded trace of `_try_lock` successes (t<i>), `_unlock` calls (u<i>), expirations (x) and stale files (s)
+    let ls := if labels == "-" then [] else labels.splitOn ","
+    let parse (t : String) : Option FileLock.Label :=
+      if t == "x" then some .expire else if t == "s" then some .stale
+      else if t.startsWith "t" then (t.drop 1).toString.toNat?.map .tryLock
+      else if t.startsWith "u" then (t.drop 1).toString.toNat?.map .unlock else none
+    let rec go (s : FileLock.St) (k : Nat) : List String → String
+      | [] => s!"ok file={if s.file then 1 else 0} holders={showNats s.holders}"
+      | t :: r => match parse t with
+        | none => s!"bad-label {t}"
+        | some l => match FileLock.step s l with
+          | some s' => go s' (k + 1) r
+          | none => s!"stuck {k} {t} file={if s.file then 1 else 0} holders={showNats s.holders}"
+    (st, go FileLock.St.init 0 ls)
   | ["ns", "reset"] => ({ st with ns := ⟨0, [], [], 1⟩ }, "ok")
   | ["ns", "create", n] => let r := Namespace.create st.ns (parseNats n); ({ st with ns := r.1 }, if r.2 == .ok then "OK" else "NO")
   | ["ns", "delete", n] => let r := Namespace.delete st.ns (parseNats n); ({ st with ns := r.1 }, if r.2 == .ok then "OK" else "NO")
